@@ -35,6 +35,7 @@ def build(cfg):
     m = Module()
     m.submodules.dec = dec
     subs = []
+    stranger = []
     for k, sc in enumerate(cfg["subs"]):
         if sc["kind"] == "dense":
             sdw, sgran = dw, gran
@@ -46,7 +47,22 @@ def build(cfg):
         bus.memory_map = MemoryMap(addr_width=max(1, sc["aw"] + log2(sdw // sgran)), data_width=sgran)
         if sc.get("align_to") is not None:
             dec.align_to(sc["align_to"])
+        if cfg.get("refusals") and k == min(1, len(cfg["subs"]) - 1):
+            # a bus the decoder REFUSES (its window lies outside the address space): it is nobody's subordinate
+            # here, and whatever it does later (behind another decoder, say) must not reach this decoder
+            z = wishbone.Interface(addr_width=1, data_width=dw, granularity=gran, features=dfeat if not cfg.get("feat_enum") else cfg["feat"],
+                                   path=("stranger",))
+            z.memory_map = MemoryMap(addr_width=max(1, 1 + log2(dw // gran)), data_width=gran)
+            try:
+                dec.add(z, addr=1 << (aw + log2(dw // gran)))
+            except ValueError:
+                stranger.append(z)
         dec.add(bus, name=sc.get("name"), addr=sc.get("addr"), sparse=(sc["kind"] == "sparse"))
+        if cfg.get("refusals"):
+            try:
+                dec.add(bus, sparse=(sc["kind"] == "sparse"))      # offered again: refused, the first window stays
+            except ValueError:
+                pass
         subs.append(bus)
         if cfg.get("use_between"):
             # the decoder is queried / elaborated while more windows are still to come: later windows
@@ -61,6 +77,10 @@ def build(cfg):
     inputs = [(n, getattr(b, n)) for n in ("adr", "dat_w", "sel", "cyc", "stb", "we", "lock", "cti", "bte") if hasattr(b, n)]
     probes = [(n, getattr(b, n)) for n in ("ack", "err", "rty", "stall", "dat_r") if hasattr(b, n)]
     meta = dict(subs=[])
+    for z in stranger:
+        for n in ("ack", "err", "rty", "stall", "dat_r"):
+            if hasattr(z, n):
+                inputs.append((f"stranger_{n}", getattr(z, n)))
     wins = {id(w): (start, stop, ratio) for w, name, (start, stop, ratio) in b.memory_map.windows()}
     for k, s in enumerate(subs):
         for n in ("ack", "err", "rty", "stall", "dat_r"):
@@ -110,6 +130,8 @@ class Ref:
         for p in comp.probe_names:
             if p in ("ack", "err", "rty", "stall", "dat_r"):
                 self.declared[p] = {"adr", "cyc"} | {f"s{k}_{p}" for k in range(self.n) if f"s{k}_{p}" in self.ii}
+                if f"stranger_{p}" in self.ii:
+                    self.declared[p].add(f"stranger_{p}")      # (the expected value does not depend on it)
             else:
                 k, nme = p.split("_", 1)
                 d = {"adr", "cyc"}
@@ -124,6 +146,8 @@ class Ref:
         w = self.widths[name]
         if w == 0:
             return [0]
+        if name.startswith("stranger_"):
+            return [0, (1 << w) - 1]
         base = name.split("_")[-1] if name.startswith("s") and name[1].isdigit() else name
         if base in ("dat_w", "dat_r") or (base == "r" ):
             salt = int(name[1]) + 1 if name.startswith("s") and name[1].isdigit() else 0
@@ -251,6 +275,7 @@ def configs(tier):
     extra = [dict(c, use_between=True) for c in out if len(c["subs"]) >= 2][::(6 if quick else 2)]
     extra += [dict(c, feat_enum=True) for c in out if c["feat"]][::(5 if quick else 2)]
     extra += [dict(c, elab_twice=True) for c in out if len(c["subs"]) >= 2][::(11 if quick else 4)]
+    extra += [dict(c, refusals=True) for c in out][::(8 if quick else 3)]
     return out + extra
 
 
